@@ -224,10 +224,11 @@ PROPS = {
                 note="Trusted: pyvc's encoding (DESIGN 2), numpy ones/indexing contracts for get_complete_accessor, codes_of definition; "
                      "z3's built-in div/mod axioms for a symbolic divisor 4^(k-1) (nonlinear).",
                 technique="postconditions of obtain_latters/obtain_formers (modular arithmetic VCs) + k-mer shift lemmas + bounded exhaustive small k"),
-    "C14": dict(title="The three graph representations are interchangeable", level="other", bounded=["C14"], design="8/C14",
+    "C14": dict(title="The three graph representations are interchangeable", level="proof", bounded=["C14"], design="8/C14",
                 proof=["dsw.graphized.obtain_vertices", "dsw.graphized.accessor_to_latter_map", "dsw.graphized.latter_map_to_accessor#plain",
                        "harness.c14_roundtrip_latter_map", "dsw.graphized.accessor_to_adjacency_matrix", "dsw.graphized.adjacency_matrix_to_accessor",
-                       "harness.c14_roundtrip_matrix", "dsw.graphized.obtain_latters", "lemma.ipow_mono"],
+                       "harness.c14_roundtrip_matrix", "dsw.graphized.obtain_leaf_vertices#accessor", "dsw.graphized.obtain_leaf_vertices#latter-map",
+                       "harness.c14_leaf_queries_agree", "dsw.graphized.obtain_latters", "lemma.fm_ext", "lemma.ipow_mono"],
                 explanation="PROVED for every arc subset (any is_accessor matrix, not only vertex-induced ones) of every order: accessor_to_latter_map returns a "
                             "dict whose keys are exactly the vertices with an arc, each mapped to the list of its live successors in A<C<G<T order, "
                             "inserted in ascending key order; latter_map_to_accessor (no threshold) of a map that describes an accessor acc0 (ghost) "
@@ -237,10 +238,13 @@ PROPS = {
                             "the arcs (every row, every column) and raises MemoryError exactly when N >= 4^maximum_length; adjacency_matrix_to_accessor, "
                             "for ANY square matrix of order k <= 31, holds in column j the j-th shift successor when the matrix has a 1 there and -1 "
                             "otherwise, and raises ValueError exactly when some 1 of the matrix is not a de Bruijn shift; hence accessor -> matrix -> "
-                            "accessor is the identity (client harness).  BOUNDED (never counted as proved): the depth-d leaf queries.",
-                demoted=["leaf queries (multiset of end points of d-step walks, either representation) - bounded B2"],
-                claim="Mixed: all conversions (latter map, adjacency matrix), both round trips, illegal-matrix rejection and the vertex listing deductive; leaf "
-                      "queries bounded.",
+                            "accessor is the identity (client harness).  PROVED: obtain_leaf_vertices, from the accessor and from a latter map that describes it, returns "
+                            "exactly the sequence lev(graph, v, d) - the end points of all d-step walks from v, breadth first, successors in A<C<G<T order "
+                            "(recursive spec: one step = flat map of live successors) - for every depth, so both representations give the same leaves in the same "
+                            "order (client harness), in particular the same multiset.",
+                demoted=[],
+                claim="Deductive for every clause: all conversions (latter map, adjacency matrix), both round trips, illegal-matrix rejection, the vertex listing and "
+                      "the leaf queries from either representation, for every arc subset of every order (matrix conversions: k <= 31).",
                 note="Trusted: numpy where / sum(axis=1) / astype / boolean-mask indexing / ones / min / max contracts, writes through a row view; dict semantics "
                      "(insertion order) as modelled; CPython's iteration order of a set of four consecutive small ints (conformance-checked); "
                      "int(log(4**k)/log(4)) == k for k <= 31 (conformance-checked).",
